@@ -240,15 +240,28 @@ def run_items(R, items):
 def run_machine(R, count):
     items = []
     for t in range(count):
-        nq = R.rng.randint(0, 14)
-        dom = R.rng.randint(1, 3)
-        ops = [[R.rng.randrange(dom), R.rng.randrange(dom)] for _ in range(nq)]
+        long_run = t % 40 == 7
+        if long_run:
+            # many distinct questions (more than any small fixed cache holds), every one of them asked again later
+            dom = R.rng.choice([12, 14, 16])
+            allq = [[a, j] for a in range(dom) for j in range(dom)]
+            first = allq[:]
+            R.rng.shuffle(first)
+            again = allq[:]
+            R.rng.shuffle(again)
+            ops = first + again[:R.rng.randint(dom, len(again))]
+            nq = len(ops)
+            R.count("machine:long_run_%d_distinct_questions" % len(allq))
+        else:
+            nq = R.rng.randint(0, 14)
+            dom = R.rng.randint(1, 3)
+            ops = [[R.rng.randrange(dom), R.rng.randrange(dom)] for _ in range(nq)]
         zero = R.rng.random() < 0.5
         fixer = 0 if zero else 1
         answers = {}
         for a in range(dom + 1):
             for j in range(dom + 1):
-                for kk in range(nq + 1):
+                for kk in range((nq + 1) if not long_run else 3):
                     if R.rng.random() < 0.7:
                         answers[f"{a + 0},{j + 0},{kk}"] = R.rng.choice([0.0, 0.0, 1.0, 2.5, -1.0, float(kk), "nan"])
         # group the questions into single elicit calls and elicit_multiple batches (which may repeat a pair)
